@@ -53,7 +53,7 @@ def instances(tier):
         out.append(("reject", {"cls": cls}))
     for shapes in (2, 3):
         for mirror in (False, True):
-            for budget in (1, 2) if tier == "quick" else (1, 2, 3):
+            for budget in (1, 2) if (tier == "quick" or (shapes == 3 and mirror)) else (1, 2, 3):
                 for st in ((0,) if tier == "quick" else (0, 1)):
                     out.append(("gpa", {"shapes": shapes, "mirror": mirror, "budget": budget, "set": st}))
     return out
